@@ -398,6 +398,6 @@ impl RandomProp for Pairs {
             .boxed()
     }
     fn cases(env: &Env) -> u64 {
-        env.n(13 * 400, 13 * 12_000)
+        env.n(13 * 3000, 13 * 100_000)
     }
 }
